@@ -27,69 +27,73 @@ def run(R):
                      "(bounded Farkas) or the named invariants; (c) every Err returned originates from a failing interface operation "
                      "(checked in C12). Not decided: that the in-bounds remainder of a batched draw_iter is drawn exactly as without the "
                      "out-of-bounds pixels (C03), transports' inner arithmetic (C06/C07).")
-    for cfg in R.configs:
-        F = R.facts(cfg)
-        orders = {"CASET": C.ctor_order(R, F, D.CASET, 2, "C02", cfg), "RASET": C.ctor_order(R, F, D.RASET, 2, "C02", cfg)}
-        entries = [(C.drawtarget_method(F, n), n) for n in ("draw_iter", "fill_contiguous", "fill_solid")]
-        for (q, m) in D.ORIENTATIONS:
-            otag = "%s|%ddeg%s" % (cfg, q * 90, "+mirror" if m else "")
-            for rec, nm in entries:
-                assume = []
-                if nm in ("fill_contiguous", "fill_solid"):
-                    # "valid embedded-graphics rectangles with fewer than 2^32 points"
-                    aw, ah = sym_int("*area.size.width", 32, False), sym_int("*area.size.height", 32, False)
-                    ax, ay = sym_int("*area.top_left.x", 32, True), sym_int("*area.top_left.y", 32, True)
-                    assume = [Poly.const((1 << 31) - 1) - ax - aw, Poly.const((1 << 31) - 1) - ay - ah]
-                try:
-                    ex, g, res = D.run_draw(R, F, rec, q, m, assume=assume)
-                except E.Undecided as e:
-                    R.undecided("C02", "%s|%s|undecided" % (otag, nm), str(e))
+    R.parallel("C02", "task", [(cfg, q, m) for cfg in R.configs for (q, m) in D.ORIENTATIONS])
+
+
+def task(R, item):
+    cfg, q, m = item
+    F = R.facts(cfg)
+    orders = {"CASET": C.ctor_order(R, F, D.CASET, 2, "C02", cfg), "RASET": C.ctor_order(R, F, D.RASET, 2, "C02", cfg)}
+    entries = [(C.drawtarget_method(F, n), n) for n in ("draw_iter", "fill_contiguous", "fill_solid")]
+    if True:
+        otag = "%s|%ddeg%s" % (cfg, q * 90, "+mirror" if m else "")
+        for rec, nm in entries:
+            assume = []
+            if nm in ("fill_contiguous", "fill_solid"):
+                # "valid embedded-graphics rectangles with fewer than 2^32 points"
+                aw, ah = sym_int("*area.size.width", 32, False), sym_int("*area.size.height", 32, False)
+                ax, ay = sym_int("*area.top_left.x", 32, True), sym_int("*area.top_left.y", 32, True)
+                assume = [Poly.const((1 << 31) - 1) - ax - aw, Poly.const((1 << 31) - 1) - ay - ah]
+            try:
+                ex, g, res = D.run_draw(R, F, rec, q, m, assume=assume)
+            except E.Undecided as e:
+                R.undecided("C02", "%s|%s|undecided" % (otag, nm), str(e))
+                continue
+            tag = "%s|%s" % (otag, nm)
+            if nm in ("fill_contiguous", "fill_solid"):
+                # product of the area < 2^32 (stated precondition) cannot be expressed linearly: it is
+                # attached to the multiplication obligation below
+                pass
+            # (a) sanitiser: no value-changing cast on any path
+            lossy = {}
+            for o in res.outcomes:
+                for ev in TR.flatten_events(o.state.trace, res.loops):
+                    if ev.kind == "note" and ev.info[0] == "lossy_cast":
+                        lossy[(ev.where(), ev.info[1]["value"])] = ev
+            for (where, val), ev in sorted(lossy.items()):
+                R.ob("C02a-coordinates-sanitised", "%s|cast@%s" % (tag, where), False,
+                     "the caller-supplied coordinate %s (range %s) is cast to u16 without a bounds check at %s: out-of-range pixels are "
+                     "not discarded but wrap into the address window" % (val, ev.info[1]["range"], where), where,
+                     sample={"entry": nm, "cast": where, "value": val})
+            if not lossy:
+                R.ob("C02a-coordinates-sanitised", "%s|casts" % tag, True, "", sample={"entry": nm, "orientation": [q * 90, m], "lossy_casts": 0})
+            # (b) no panic
+            pan = {}
+            for o in res.panics():
+                sp_ = o.info.get("span") or {}
+                what = o.info.get("what") or o.info.get("kind")
+                key = (sp_.get("file"), sp_.get("line"), what, o.info.get("op"))
+                # stated precondition: fewer than 2^32 points
+                ops_s = str(o.info.get("a")) + str(o.info.get("b"))
+                if what == "overflow" and o.info.get("op") in ("Mul", "Add") and nm == "fill_contiguous" and o.info.get("fn") == rec["id"] \
+                        and "area.size.width" in ops_s and "self." not in ops_s:
+                    R.notes.append("%s: %s discharged by the stated precondition '< 2^32 points' (%s:%s)" % (tag, "skip * width", sp_.get("file"), sp_.get("line")))
                     continue
-                tag = "%s|%s" % (otag, nm)
-                if nm in ("fill_contiguous", "fill_solid"):
-                    # product of the area < 2^32 (stated precondition) cannot be expressed linearly: it is
-                    # attached to the multiplication obligation below
-                    pass
-                # (a) sanitiser: no value-changing cast on any path
-                lossy = {}
-                for o in res.outcomes:
-                    for ev in TR.flatten_events(o.state.trace, res.loops):
-                        if ev.kind == "note" and ev.info[0] == "lossy_cast":
-                            lossy[(ev.where(), ev.info[1]["value"])] = ev
-                for (where, val), ev in sorted(lossy.items()):
-                    R.ob("C02a-coordinates-sanitised", "%s|cast@%s" % (tag, where), False,
-                         "the caller-supplied coordinate %s (range %s) is cast to u16 without a bounds check at %s: out-of-range pixels are "
-                         "not discarded but wrap into the address window" % (val, ev.info[1]["range"], where), where,
-                         sample={"entry": nm, "cast": where, "value": val})
-                if not lossy:
-                    R.ob("C02a-coordinates-sanitised", "%s|casts" % tag, True, "", sample={"entry": nm, "orientation": [q * 90, m], "lossy_casts": 0})
-                # (b) no panic
-                pan = {}
-                for o in res.panics():
-                    sp_ = o.info.get("span") or {}
-                    what = o.info.get("what") or o.info.get("kind")
-                    key = (sp_.get("file"), sp_.get("line"), what, o.info.get("op"))
-                    # stated precondition: fewer than 2^32 points
-                    ops_s = str(o.info.get("a")) + str(o.info.get("b"))
-                    if what == "overflow" and o.info.get("op") in ("Mul", "Add") and nm == "fill_contiguous" and o.info.get("fn") == rec["id"] \
-                            and "area.size.width" in ops_s and "self." not in ops_s:
-                        R.notes.append("%s: %s discharged by the stated precondition '< 2^32 points' (%s:%s)" % (tag, "skip * width", sp_.get("file"), sp_.get("line")))
-                        continue
-                    pan[key] = o
-                for key, o in sorted(pan.items(), key=lambda kv: str(kv[0])):
-                    R.ob("C02b-no-panic", "%s|%s:%s|%s|%s" % (tag, key[0], key[1], key[2], key[3]), False,
-                         "can panic for some coordinates: %s" % (pretty_info(o.info),), "%s:%s" % (key[0], key[1]),
-                         sample={"entry": nm, "site": "%s:%s" % (key[0], key[1]), "kind": key[2], "op": key[3]})
-                R.ob("C02b-obligations-discharged", "%s|discharged" % tag, not pan,
-                     "%d panic obligations of %s are not discharged" % (len(pan), nm), sample={"entry": nm, "discharged": res.discharged})
-                # (a) windows inside the framebuffer where the coordinates are decidable
-                for o in res.returns():
-                    for a_, kind, (lo, hi) in D.windows(o, res.loops, orders):
-                        f = o.state.facts if a_["known"] is None else None
-                        if f is None:
-                            continue   # inside a loop body: facts of that iteration are not the outcome's
-                        lim = g.col_limit() if kind == "CASET" else g.row_limit()
-                        hi2 = f.simplify(hi)
-                        ok = f.entails_ge0(lim - 1 - hi2) is not None
-                        R.ob("C02a-window-inside-framebuffer", "%s|%s" % (tag, kind), ok,
-                             "%s end %r is not provably inside the framebuffer as seen under the address mode (limit %r)" % (kind, hi2, lim))
+                pan[key] = o
+            for key, o in sorted(pan.items(), key=lambda kv: str(kv[0])):
+                R.ob("C02b-no-panic", "%s|%s:%s|%s|%s" % (tag, key[0], key[1], key[2], key[3]), False,
+                     "can panic for some coordinates: %s" % (pretty_info(o.info),), "%s:%s" % (key[0], key[1]),
+                     sample={"entry": nm, "site": "%s:%s" % (key[0], key[1]), "kind": key[2], "op": key[3]})
+            R.ob("C02b-obligations-discharged", "%s|discharged" % tag, not pan,
+                 "%d panic obligations of %s are not discharged" % (len(pan), nm), sample={"entry": nm, "discharged": res.discharged})
+            # (a) windows inside the framebuffer where the coordinates are decidable
+            for o in res.returns():
+                for a_, kind, (lo, hi) in D.windows(o, res.loops, orders):
+                    f = o.state.facts if a_["known"] is None else None
+                    if f is None:
+                        continue   # inside a loop body: facts of that iteration are not the outcome's
+                    lim = g.col_limit() if kind == "CASET" else g.row_limit()
+                    hi2 = f.simplify(hi)
+                    ok = f.entails_ge0(lim - 1 - hi2) is not None
+                    R.ob("C02a-window-inside-framebuffer", "%s|%s" % (tag, kind), ok,
+                         "%s end %r is not provably inside the framebuffer as seen under the address mode (limit %r)" % (kind, hi2, lim))
